@@ -82,14 +82,16 @@ class G:
             f = r.choice(sorted(self.subs))
             if f not in [p[0] for p in PREDEF]:
                 self.op("unsubscribe", H(f))
-                self.subs.discard(f)
+            else:
+                self.op("unsubscribepre", dict(PREDEF)[f])
+            self.subs.discard(f)
         elif k < 0.58:
             pool = sorted(self.registered) + SHORT
             if r.random() < 0.08:
                 pool = [b'never/registered']
-            self.op("publish", H(r.choice(pool)), r.choice([0, 1, 2]), H(self.payload()))
+            self.op(r.choice(["publish", "publish", "publish", "publishr"]), H(r.choice(pool)), r.choice([0, 1, 2]), H(self.payload()))
         elif k < 0.63 and self.usepredef:
-            self.op("publishpre", r.choice(PREDEF)[1], r.choice([0, 1, 2]), H(self.payload()))
+            self.op(r.choice(["publishpre", "publishpre", "publishprer"]), r.choice(PREDEF)[1], r.choice([0, 1, 2]), H(self.payload()))
         elif k < 0.67:
             self.op("ping")
         elif k < 0.85:
@@ -127,7 +129,8 @@ class G:
             # a message on a topic the client has no ID for, arriving early in a sleep that outlasts
             # the gateway's retry budget for its REGISTER
             self.op("subscribe", H(b'a/#'), 1)
-            self.op("sleepinject", 3, H(self.fresh_topic()), 1, H(self.payload()))
+            self.newtopics += 1
+            self.op("sleepinject", 3, H(b'a/late%d' % self.newtopics), 1, H(self.payload()))
             self.op("connect")
         if r.random() < 0.85:
             self.op("disconnect")
